@@ -136,6 +136,9 @@ func TestVerifC06(t *testing.T) {
 			flags := c04GenFlags(r)
 			if i%3 == 0 {
 				flags |= uint64(FlagRW)
+			} else if i%4 == 1 {
+				// sparse flag sets, the empty one included: nothing in them asks for write access
+				flags = r.PickU64([]uint64{0, 0, uint64(FlagCopyOnWrite), uint64(FlagNoExecute), uint64(FlagUserAccessible), uint64(FlagPresent)})
 			}
 			va := vmCanon(uintptr(r.PickInt([]int{1, 300})), uintptr(r.Intn(4)), uintptr(r.Intn(4)), uintptr(r.Intn(512)))
 			before := s.usedSnapshot()
